@@ -47,7 +47,7 @@ def generate(rng, tier):
             op["extractor"] = rand_extractor(rng)
             op["classlevel"] = (op["cls"] == "OpB")
             runs.append(dict(kind="record", enabled=True, prm=dict(rate=[1, 1], ignore=False, skipped=False, copy=False),
-                             op=op, save_fails=False))
+                             op=op, save_fails=False, in_handler=rng.random() < 0.3))
         cases.append(dict(draws=[], runs=runs, cassette="memory", lookup=True))
     return cases
 
